@@ -188,8 +188,14 @@ def handshake_history(rng, sid_n, quick):
         m4 = frame(4, replay + 1, False, bytes(32))
         seq = []
         # an abandoned first attempt, then the real one; each message possibly retransmitted
-        if rng.random() < 0.3:
-            seq += [(1, m1, 0)] * rng.choice([1, 2]) + ([(2, m2, 0)] if rng.random() < 0.5 else [])
+        if rng.random() < 0.4:
+            # (message 1 again restarts the collection: the answer to the retransmission carries a fresh SNonce, and the key must come from it)
+            kck_real = kck
+            snonce_a = rb(rng, 32)
+            kck = W.ptk_from(pmk, bssid, sta, anonce, snonce_a)[:16]
+            m2a = frame(2, replay, False, snonce_a, rb(rng, 22))
+            kck = kck_real
+            seq += [(1, m1, 0)] * rng.choice([1, 2]) + ([(2, rng.choice([m2, m2a, m2a]), 0)] if rng.random() < 0.7 else [])
         for msg, fr in ((1, m1), (2, m2), (3, m3), (4, m4)):
             seq += [(msg, fr, 0)] * rng.choice([1, 1, 1, 2, 3])
         ptks = [ptk]
